@@ -8,6 +8,8 @@ pub mod c01;
 pub mod c02;
 pub mod c03;
 #[cfg(feature = "native")]
+pub mod c04;
+#[cfg(feature = "native")]
 pub mod c05;
 #[cfg(feature = "native")]
 pub mod c06;
@@ -33,6 +35,8 @@ pub fn lookup(id: &str) -> Option<Box<dyn Check>> {
         "C01" => Some(Box::new(c01::C01)),
         "C02" => Some(Box::new(c02::C02)),
         "C03" => Some(Box::new(c03::C03)),
+        #[cfg(feature = "native")]
+        "C04" => Some(Box::new(c04::C04)),
         #[cfg(feature = "native")]
         "C05" => Some(Box::new(c05::C05)),
         #[cfg(feature = "native")]
